@@ -134,3 +134,79 @@ Section Terminates.
     - simpl. lia.
   Qed.
 End Terminates.
+
+(* ---- fqdn escaping: the emitted field name is the declared name ---------------------------------- *)
+Lemma unesc_esc : forall name, unesc_name (esc_name name) = name.
+Proof.
+  induction name as [|b r IH]; [reflexivity|]. cbn [esc_name].
+  destruct (Byte.eqb b x2e || Byte.eqb b x25)%bool eqn:E.
+  - cbn [unesc_name]. rewrite IH. reflexivity.
+  - cbn [unesc_name]. apply orb_false_elim in E as [_ E]. rewrite E, IH. reflexivity.
+Qed.
+
+Lemma obj_key_roundtrip parent name : obj_key (parent ++ [esc_name name]) = name.
+Proof. unfold obj_key, last_namelet. rewrite last_last. apply unesc_esc. Qed.
+
+(* an escaped name is one piece: no unescaped '.', and it leaves the scanner unescaped *)
+Lemma split_esc_escaped : forall name cur, split_esc (esc_name name) cur false = [rev cur ++ esc_name name].
+Proof.
+  induction name as [|b r IH]; intro cur; cbn [esc_name split_esc].
+  - rewrite app_nil_r. reflexivity.
+  - destruct (Byte.eqb b x2e || Byte.eqb b x25)%bool eqn:E.
+    + cbn [split_esc]. change (Byte.eqb x25 x25) with true. cbn [split_esc]. rewrite IH. cbn [rev].
+      rewrite <- !app_assoc. reflexivity.
+    + apply orb_false_elim in E as [E1 E2]. cbn [split_esc]. rewrite E2, E1, IH. cbn [rev].
+      rewrite <- app_assoc. reflexivity.
+Qed.
+
+Lemma split_esc_last_app : forall a b cur e,
+  exists cur', last (split_esc (a ++ b) cur e) [] = last (split_esc b cur' (esc_state a e)) [].
+Proof.
+  induction a as [|x a IH]; intros b cur e; cbn [app esc_state].
+  - exists cur. reflexivity.
+  - cbn [split_esc]. destruct e.
+    + apply IH.
+    + destruct (Byte.eqb x x25) eqn:P.
+      * apply IH.
+      * destruct (Byte.eqb x x2e).
+        -- destruct (IH b [] false) as [c' H]. exists c'.
+           destruct (split_esc (a ++ b) [] false) eqn:S.
+           ++ exfalso. clear - S. revert S. generalize (@nil byte) false. induction (a ++ b) as [|y l IHl]; intros c e S;
+                cbn [split_esc] in S; [discriminate|].
+              destruct e; [eapply IHl; eauto|]. destruct (Byte.eqb y x25); [eapply IHl; eauto|].
+              destruct (Byte.eqb y x2e); [discriminate|eapply IHl; eauto].
+           ++ cbn [last]. exact H.
+        -- apply IH.
+Qed.
+
+(* The field name a child is emitted under, computed on the fqdn string as the Go code does, is
+   exactly the declared name - for every name, under every parent fqdn that does not end in an
+   unfinished escape (parents are built from escaped names and fixed namelets). *)
+Theorem fqdn_key_roundtrip : forall parent name,
+  esc_state parent false = false ->
+  last_namelet_str (build_fqdn parent (esc_name name)) = name.
+Proof.
+  intros parent name Hst. unfold last_namelet_str, build_fqdn.
+  destruct (split_esc_last_app parent (x2e :: esc_name name) [] false) as [cur' H].
+  rewrite H, Hst. cbn [split_esc]. change (Byte.eqb x2e x25) with false. change (Byte.eqb x2e x2e) with true.
+  cbn iota. rewrite split_esc_escaped. cbn [rev app last]. apply unesc_esc.
+Qed.
+
+(* parents built by validate end unescaped: an escaped name does, and so does a join of such *)
+Lemma esc_state_escaped : forall name, esc_state (esc_name name) false = false.
+Proof.
+  induction name as [|b r IH]; [reflexivity|]. cbn [esc_name].
+  destruct (Byte.eqb b x2e || Byte.eqb b x25)%bool eqn:E.
+  - cbn [esc_state]. change (Byte.eqb x25 x25) with true. exact IH.
+  - apply orb_false_elim in E as [_ E]. cbn [esc_state]. rewrite E. exact IH.
+Qed.
+
+Lemma esc_state_app : forall a b e, esc_state (a ++ b) e = esc_state b (esc_state a e).
+Proof. induction a as [|x a IH]; intros b e; cbn [app esc_state]; [reflexivity|]. destruct e; apply IH. Qed.
+
+Lemma esc_state_build parent name :
+  esc_state parent false = false -> esc_state (build_fqdn parent (esc_name name)) false = false.
+Proof.
+  intro H. unfold build_fqdn. rewrite esc_state_app, H. cbn [esc_state].
+  change (Byte.eqb x2e x25) with false. apply esc_state_escaped.
+Qed.
